@@ -1,5 +1,6 @@
 S = "simplify.py"
 E = "expr_container.py"
+F = "func.py"
 
 _IF1 = ("            if idx1[0] == idx2[0] and idx1[0] not in target and \\\n"
         "                    idx_counter[idx1[0]] == 2:")
@@ -96,7 +97,8 @@ WITNESSES = [
                  "        remainder_idx = {s for i, o in enumerate(obj)\n                         if i not in unitary_tensors for s in o.idx}\n"),
                 ("                    idx_counter[idx1[0]] == 2:", "                    idx1[0] not in remainder_idx:"),
                 ("                    idx_counter[idx1[1]] == 2:", "                    idx1[1] not in remainder_idx:"),
-                ("all(idx_counter[s] == 2 for s in idx1)", "all(s not in remainder_idx for s in idx1)")]),
+                ("all(idx_counter[s] == 2 for s in idx1)", "all(s not in remainder_idx for s in idx1)"),
+                ("any(idx_counter[s] == 2 for s in delta.idx)", "any(s not in remainder_idx for s in delta.idx)")]),
     dict(id="c20-seed-einstein-targets", prop="C20", file=S, expect="R20",
          edits=[("        target = term.target\n        idx_counter = Counter(term.idx)\n",
                  "        idx_counter = Counter(term.idx)\n        target = {s for s, n in idx_counter.items() if n == 1}\n")]),
@@ -130,7 +132,44 @@ WITNESSES = [
                  "        remainder_idx = {s for i, o in enumerate(obj)\n                         if i not in unitary_tensors for s in o.idx}\n"),
                 ("                    idx_counter[idx1[0]] == 2:", "                    idx1[0] not in remainder_idx:"),
                 ("                    idx_counter[idx1[1]] == 2:", "                    idx1[1] not in remainder_idx:")]),
+    # reverts of the fixes d75a3e8 (F30, func.evaluate_deltas) and 87d0b39 (F31, simplify_unitary) and variants of the guards
+    dict(id="c20-f30-trace-delta-revert", prop="C20", file=F, expect="R20c", old="                # both indices are contracted and do only occur on the delta:\n                # sum_pq delta_pq gives the dimension of the space and not 1\n                # -> no index can be removed without loosing the sum\n                if preferred not in target_idx and not any(\n                        obj.has(preferred) or obj.has(killable)\n                        for obj in expr.args if obj is not d):\n                    continue\n", new=""),
+    dict(id="c20-f31-present-delta-revert", prop="C20", file=S, expect="R20a", old="            # the delta is already part of the term: delta * delta = delta\n            # removes one occurrence of both indices, which turns an index\n            # that occurs twice from a contracted into a target index if the\n            # target indices are determined with the Einstein sum convention\n            if term.provided_target_idx is None and \\\n                    any(o.sympy == delta for o in obj) and \\\n                    any(idx_counter[s] == 2 for s in delta.idx):\n                continue\n", new=""),
+    dict(id="c20-f30-guard-preferred-only", prop="C20", file=F, expect="R20c",
+         old="obj.has(preferred) or obj.has(killable)", new="obj.has(preferred)"),
+    dict(id="c20-f30-guard-includes-delta", prop="C20", file=F, expect="R20c",
+         old="                        for obj in expr.args if obj is not d):\n", new="                        for obj in expr.args):\n"),
+    dict(id="c20-f30-guard-ignores-targets", prop="C20", file=F, expect="R20c",
+         old="                if preferred not in target_idx and not any(\n", new="                if not any(\n"),
+    dict(id="c20-f31-guard-provided-too", prop="C20", file=S, expect="R20a",
+         old="            if term.provided_target_idx is None and \\\n                    any(o.sympy == delta for o in obj) and \\\n",
+         new="            if any(o.sympy == delta for o in obj) and \\\n"),
+    dict(id="c20-f31-guard-all", prop="C20", file=S, expect="R20a",
+         old="any(idx_counter[s] == 2 for s in delta.idx)", new="all(idx_counter[s] == 2 for s in delta.idx)"),
+    dict(id="c20-f31-guard-any-count", prop="C20", file=S, expect="R20a",
+         old="any(idx_counter[s] == 2 for s in delta.idx)", new="any(idx_counter[s] >= 2 for s in delta.idx)"),
     # ------------------------------------------------------------------ behaviour-preserving edits
+    # the repaired guards spelled differently
+    dict(id="c20-ok-f30-twin", prop="C20", file=F, expect=None,
+         old="                if preferred not in target_idx and not any(\n                        obj.has(preferred) or obj.has(killable)\n                        for obj in expr.args if obj is not d):\n",
+         new="                others = [obj for obj in expr.args if obj is not d]\n"
+             "                lonely = all(not obj.has(preferred, killable) for obj in others)\n"
+             "                if lonely and preferred not in target_idx:\n"),
+    dict(id="c20-ok-f30-twin-loop", prop="C20", file=F, expect=None,
+         old="                if preferred not in target_idx and not any(\n                        obj.has(preferred) or obj.has(killable)\n                        for obj in expr.args if obj is not d):\n                    continue\n",
+         new="                elsewhere = False\n                for obj in expr.args:\n                    if obj is d:\n                        continue\n"
+             "                    if obj.has(killable) or obj.has(preferred):\n                        elsewhere = True\n"
+             "                if not (elsewhere or preferred in target_idx):\n                    continue\n"),
+    dict(id="c20-ok-f31-twin", prop="C20", file=S, expect=None,
+         old="            if term.provided_target_idx is None and \\\n                    any(o.sympy == delta for o in obj) and \\\n                    any(idx_counter[s] == 2 for s in delta.idx):\n",
+         new="            einstein = term.provided_target_idx is None\n"
+             "            if einstein and delta in [o.sympy for o in obj] and \\\n"
+             "                    2 in [idx_counter[s] for s in delta.idx]:\n"),
+    dict(id="c20-ok-f31-twin-nested", prop="C20", file=S, expect=None,
+         old="            if term.provided_target_idx is None and \\\n                    any(o.sympy == delta for o in obj) and \\\n                    any(idx_counter[s] == 2 for s in delta.idx):\n                continue\n",
+         new="            collapses = False\n            if term.provided_target_idx is None:\n                for o in obj:\n"
+             "                    if o.sympy == delta:\n                        collapses = min(idx_counter[s] for s in delta.idx) == 2\n"
+             "            if collapses:\n                continue\n"),
     # refactoring D5 (tuple unpacking of the index pairs, membership test in the remainder loop) on the repaired code
     dict(id="c20-ok-d5-unpacking", prop="C20", file=S, expect=None,
          edits=[("            idx1 = obj[i1].idx\n            idx2 = obj[i2].idx\n",
@@ -165,7 +204,8 @@ WITNESSES = [
          edits=[("        idx_counter = Counter(term.idx)\n", "        all_idx = term.idx\n"),
                 ("                    idx_counter[idx1[0]] == 2:", "                    all_idx.count(idx1[0]) == 2:"),
                 ("                    idx_counter[idx1[1]] == 2:", "                    all_idx.count(idx1[1]) == 2:"),
-                ("all(idx_counter[s] == 2 for s in idx1)", "all(all_idx.count(s) == 2 for s in idx1)")]),
+                ("all(idx_counter[s] == 2 for s in idx1)", "all(all_idx.count(s) == 2 for s in idx1)"),
+                ("any(idx_counter[s] == 2 for s in delta.idx)", "any(all_idx.count(s) == 2 for s in delta.idx)")]),
     dict(id="c20-ok-index-loops", prop="C20", file=S, expect=None,
          old="        for (i1, i2) in combinations(unitary_tensors, 2):\n",
          new="        for i1, i2 in ((unitary_tensors[n1], unitary_tensors[n2])\n                       for n1 in range(len(unitary_tensors))\n"
